@@ -98,6 +98,22 @@ fn subscribe_registers_first() -> bool {
     }
 }
 
+/// does `CancelImpl::set_co` of the tree under test look at `is_disabled()` first (F16)? (model variant `dz`)
+fn set_co_checks_disabled() -> bool {
+    let repo = std::env::var("VERIF_REPO").unwrap_or_else(|_| "/repo".into());
+    match std::fs::read_to_string(format!("{repo}/src/cancel.rs")) {
+        Ok(s) => match s.find("pub fn set_co(") {
+            Some(a) => {
+                let body = &s[a..];
+                let end = body.find("\n    }").unwrap_or(body.len());
+                body[..end].contains("is_disabled()")
+            }
+            None => false,
+        },
+        Err(_) => false,
+    }
+}
+
 pub fn build(rng: &mut Rng, tier: u32) -> LiveBuilt {
     let nops = 1 + rng.below(if tier > 0 { 6 } else { 4 }) as usize;
     let unparker = rng.chance(500);
@@ -132,9 +148,10 @@ pub fn build(rng: &mut Rng, tier: u32) -> LiveBuilt {
     // mistaken for one of this target's
     let tag = rng.below(1_000_000);
     let header = format!(
-        "family=cancel tag={} fixed={} ops={} unparker={} cocancel={} trigger={} ncancel={}",
+        "family=cancel tag={} fixed={} setco={} ops={} unparker={} cocancel={} trigger={} ncancel={}",
         tag,
         subscribe_registers_first() as u8,
+        set_co_checks_disabled() as u8,
         desc.join(","),
         unparker as u8,
         co_canceller as u8,
@@ -526,12 +543,18 @@ pub fn build_mutex(rng: &mut Rng, tier: u32) -> LiveBuilt {
 
 pub fn build_cvlock(rng: &mut Rng, _tier: u32) -> LiveBuilt {
     let hold_us = 200 + rng.below(1300); // how long the notifier keeps the lock after notify_one
-    let cancel_us = rng.below(hold_us.min(600)); // the cancel lands while the waiter is parked in the re-lock (mostly)
+    // the cancel lands while the waiter is parked in the re-lock: early in the hold (mode 0), or AT the unlock (mode 1:
+    // cancel() races the unlocker that pops the waiter's blocker - the window of the lost wake-up F16: the blocker was
+    // un-parked but `unparked` is not stored yet, the cancel wake-up eats the token, the ignoring waiter parks again)
+    let at_unlock = rng.chance(600);
+    let cancel_us = if at_unlock { (hold_us + rng.below(240)).saturating_sub(120) } else { rng.below(hold_us.min(600)) };
     let nprobe = 1 + rng.below(2) as usize;
-    let header = format!("family=cancel_cvlock hold_us={hold_us} cancel_us={cancel_us} probes={nprobe}");
+    let header = format!("family=cancel_cvlock hold_us={hold_us} cancel_us={cancel_us} at_unlock={} probes={nprobe}", at_unlock as u8);
     LiveBuilt {
         header,
-        filter: vec!["sync/mutex.rs"],
+        // (park.rs and blocking.rs are in the filter so that the seeded perturbation stalls the un-parker between
+        //  `blocker.unpark()` and `unparked.store(true)` and the waiter around its park)
+        filter: vec!["sync/mutex.rs", "sync/blocking.rs", "src/park.rs"],
         hang_ms: 4000,
         run: Box::new(move || {
             use may::sync::Condvar;
@@ -637,6 +660,25 @@ pub fn build_cvlock(rng: &mut Rng, _tier: u32) -> LiveBuilt {
                         }
                     }
                 }));
+            }
+            // the waiter must come back once the notifier has released the mutex (lost wake-up otherwise: F16)
+            {
+                let mut since: Option<std::time::Instant> = None;
+                while !ha.is_done() {
+                    if tb.is_finished() && since.is_none() {
+                        since = Some(std::time::Instant::now());
+                    }
+                    if let Some(t) = since {
+                        if t.elapsed() > Duration::from_millis(2500) {
+                            fails.push("lost wake-up: the waiter is still blocked in the re-lock of Condvar::wait 2500 ms after the notifier released the mutex (cancelled while cancellation was disabled)".to_string());
+                            stop.store(true, Ordering::SeqCst);
+                            let _ = tc.join();
+                            // the waiter and whoever queued behind it are abandoned
+                            return fails;
+                        }
+                    }
+                    std::thread::sleep(Duration::from_micros(300));
+                }
             }
             match classify(ha.join()) {
                 Ok(_) => {}
